@@ -198,6 +198,7 @@ func init() {
 					mk("c17-module", cfg, world.ModuleStores, []int{3, 1, 1, 3, 2}, 8),
 					mk("c17-pipeline", full, world.AllStores, []int{2, 1, 2, 3, 1}, 6),
 					unionScenario("C17", "c17-union", tier, c17Step, nil),
+					unionFullScenario("C17", "c17-union-full-pipeline", tier, c17Step, nil, 7),
 				}
 			}
 			return []*engine.Scenario{
@@ -205,6 +206,7 @@ func init() {
 				mk("c17-module", cfg, world.ModuleStores, []int{2, 1, 1, 2, 1}, 4),
 				mk("c17-pipeline", full, world.AllStores, []int{1, 1, 1, 2, 1}, 3),
 				unionScenario("C17", "c17-union", tier, c17Step, nil),
+				unionFullScenario("C17", "c17-union-full-pipeline", tier, c17Step, nil, 4),
 			}
 		},
 		Assumptions: []string{
